@@ -497,6 +497,13 @@ func errorMessages(ctx *Ctx, r *Result, rule string) {
 				msg = s
 			} else if ret.Op == "call" && ret.Name == "fmt.Sprintf" && len(ret.Args) >= 1 {
 				msg, _ = ret.Args[0].ConstString()
+			} else if ret.Op == "bin" && ret.Name == "+" {
+				// a concatenation: its leftmost piece
+				l := ret
+				for l.Op == "bin" && l.Name == "+" && len(l.Args) == 2 {
+					l = l.Args[0]
+				}
+				msg, _ = l.ConstString()
 			}
 			if !strings.HasPrefix(msg, "cors: ") {
 				bad = "a path returns a message that does not start with `cors: `: " + ret.Key()
